@@ -11,9 +11,9 @@ func init() {
 	reg(&core.Property{
 		ID: "C03", Level: "exploration",
 		Batches: []core.Batch{
-			{Name: "faultfree", Engine: store.TreeMapEngine{}, Quick: 60000, Thorough: 1500000,
+			{Name: "faultfree", Engine: store.TreeMapEngine{}, Quick: 100000, Thorough: 4000000,
 				Rule: "a run is non-trivial when it has at least four operation kinds including an insert and a read (get or iterate)"},
-			{Name: "readfaults", Engine: store.TreeMapEngine{Faults: true}, Quick: 15000, Thorough: 300000,
+			{Name: "readfaults", Engine: store.TreeMapEngine{Faults: true}, Quick: 30000, Thorough: 1000000,
 				Rule: "as faultfree, and at least one injected GetNode error actually fired"},
 		},
 		Real:        storeReal,
